@@ -236,6 +236,43 @@ class _Canon(ast.NodeTransformer):
     def visit_Lambda(self, node):
         return node
 
+    def visit_Attribute(self, node):
+        # `self.<NAME>` with NAME a class-level literal (a constant or a
+        # display of constants) that no method re-binds is that literal
+        try:
+            lit = self._class_literal(node)
+        except Exception:
+            lit = None
+        if lit is not None:
+            return lit
+        return self.generic_visit(node)
+
+    def _class_literal(self, node):
+        fr = self.frame
+        if not (isinstance(node.value, ast.Name) and
+                isinstance(node.ctx, ast.Load) and
+                node.value.id in (fr.ctx.func.self_name, 'cls')):
+            return None
+        cls = fr.ctx.func.cls
+        if cls is None:
+            return None
+        v = cls.class_attrs.get(node.attr)
+        if v is None:
+            return None
+        ok = isinstance(v, ast.Constant) and isinstance(
+            v.value, (str, bytes, int)) and not isinstance(v.value, bool)
+        if isinstance(v, (ast.Tuple, ast.List, ast.Set)) and v.elts and all(
+                isinstance(x, ast.Constant) for x in v.elts):
+            ok = True
+        if not ok:
+            return None
+        for m in cls.methods.values():
+            for x in ast.walk(m.node):
+                if isinstance(x, ast.Attribute) and x.attr == node.attr and \
+                        isinstance(x.ctx, (ast.Store, ast.Del)):
+                    return None
+        return copy.deepcopy(v)
+
     def visit_Subscript(self, node):
         # a look-up in a class-level table of literals with a key that is a
         # literal here (also: a parameter the inlined call was given a
